@@ -736,6 +736,8 @@ func generate(f kit.Flags) [][]string {
 		[]string{"http POST " + kit.Esc("/kapacitor/v1/write?db=db&rp=rp") + " badgzip " + kit.Esc("m v=1")},
 		[]string{"http GET " + kit.Esc("/kapacitor/v1/ping") + " plain %"})
 	cases = append(cases, []string{"udfwrite i f s b"}, []string{"udfwrite i d i"}, []string{"udfwrite n i"}, []string{"udfwrite t u i"})
+	// answers to Info / Init / Snapshot / Restore nobody asked for, in every order relative to the requests
+	cases = append(cases, rrDirected()...)
 
 	// (2) ALL strings over the alphabet up to length 3 (quick) / 4 (thorough); the longest length is
 	// sharded over the parallel seed runs
@@ -870,6 +872,10 @@ func generate(f kit.Flags) [][]string {
 					ks = append(ks, kit.Pick(r, []string{"i", "f", "s", "b", "d", "n", "t", "u", "i", "f"}))
 				}
 				cases = append(cases, []string{"udfwrite " + strings.Join(ks, " ")})
+				break
+			}
+			if r.Chance(1, 2) {
+				cases = append(cases, []string{"udfrr " + strings.Join(genRR(r), " ")})
 				break
 			}
 			cases = append(cases, []string{"udfsrv " + strings.Join(genUDFSeq(r), " ")})
